@@ -1,5 +1,6 @@
 import RainModel.Model.LoopStep
 import RainModel.Lemmas.LoopFrame
+import RainModel.Lemmas.LoopHmd
 /-!
 C19 — private torrents use only their trackers.  Theorems over M-LOOP (the model of the repaired
 code, finding C19-F1); the tie to the code is the `private` suite.
@@ -54,11 +55,9 @@ marked private (BEP 27: such a torrent must only be obtained from its tracker): 
 arrives, `info` keeps its value and no address learnt so far is used. -/
 theorem private_magnet_refused (m : M) (k i len : Nat) (good : Bool) (hp : m.1.cfg.isPrivate = true) :
     (handleMetadataData m k i len good).1.info = m.1.info := by
-  unfold handleMetadataData
-  dsimp only
-  repeat' split
-  all_goals first
-    | simp
-    | (rename_i h; simp [hp] at h)
+  rcases handleMetadataData_info_cases m k i len good with h | ⟨d, hc⟩
+  · exact h
+  · rw [handleMetadataData_complete m d k i len good hc, hmdAdopt_refused (hmdStored m d k i good) (Or.inr hp)]
+    simp [hmdStored]
 
 end Rain.Props.C19
